@@ -10,7 +10,6 @@ import (
 	"runtime"
 	"sync"
 	"sync/atomic"
-	"time"
 )
 
 type coldJob struct {
@@ -21,6 +20,38 @@ type coldJob struct {
 	vec    string
 }
 
+// raceStart releases k callers (k-1 goroutines + the calling goroutine, one per P) from a spin barrier
+// into fn at the same moment, with head starts of a few dozen nanoseconds.
+var spinSink uint64
+
+func raceStart(k int, fn func(i int)) {
+	var wg sync.WaitGroup
+	var ready, goFlag int32
+	stagger := func(i int) {
+		for j := 0; j < (i%4)*40; j++ {
+			atomic.AddUint64(&spinSink, 1)
+		}
+	}
+	for i := 0; i < k-1; i++ {
+		wg.Add(1)
+		go func(i int) {
+			defer wg.Done()
+			atomic.AddInt32(&ready, 1)
+			for atomic.LoadInt32(&goFlag) == 0 {
+			}
+			stagger(i)
+			fn(i)
+		}(i)
+	}
+	for atomic.LoadInt32(&ready) < int32(k-1) {
+		runtime.Gosched()
+	}
+	atomic.StoreInt32(&goFlag, 1)
+	stagger(k - 1)
+	fn(k - 1)
+	wg.Wait()
+}
+
 func runColdStart(a *args) {
 	prop := a.Prop
 	col := newCollector("coldstart", prop)
@@ -29,7 +60,7 @@ func runColdStart(a *args) {
 		jobs = append(jobs, coldJob{ver, o, method, w, o.Vector()})
 	}
 	one := func(k int) mask { var m mask; m.add(k); return m }
-	n := runtime.GOMAXPROCS(0) * 2
+	n := runtime.GOMAXPROCS(0)
 	switch prop {
 	case "C02":
 		// first Vector() / ParseVector calls of the process, made concurrently; objects and their canonical
@@ -60,29 +91,13 @@ func runColdStart(a *args) {
 			objs[i] = o
 			res[i] = vr{ver: s.Ver, want: string(bytesOf(s.Vec))}
 		}
-		var wg sync.WaitGroup
-		var ready, goFlag int32
-		for i := 0; i < k; i++ {
-			wg.Add(1)
-			go func(i int) {
-				defer wg.Done()
-				atomic.AddInt32(&ready, 1)
-				for atomic.LoadInt32(&goFlag) == 0 {
-				}
-				for t := time.Now(); time.Since(t) < time.Duration(i%16)*4*time.Microsecond; {
-				}
-				safely(func() {
-					res[i].got = objs[i].Vector()
-					b, err := versions[res[i].ver].Parse(res[i].got)
-					res[i].back = err == nil && b != nil && b.Same(objs[i])
-				})
-			}(i)
-		}
-		for atomic.LoadInt32(&ready) < int32(k) {
-			runtime.Gosched()
-		}
-		atomic.StoreInt32(&goFlag, 1)
-		wg.Wait()
+		raceStart(k, func(i int) {
+			safely(func() {
+				res[i].got = objs[i].Vector()
+				b, err := versions[res[i].ver].Parse(res[i].got)
+				res[i].back = err == nil && b != nil && b.Same(objs[i])
+			})
+		})
 		for _, r := range res {
 			col.distinct(r.ver+r.want, true)
 			col.count("first-use Vector()/ParseVector round trips", 1)
@@ -154,48 +169,34 @@ func runColdStart(a *args) {
 				pts = append(pts, g)
 			}
 		})
-		var wg sync.WaitGroup
-		var ready, goFlag int32
 		type res struct {
 			ver  string
 			x    float64
 			want string
 			got  string
 		}
-		out := make([]res, 0, len(pts)*3)
-		var mu sync.Mutex
-		k := 0
-		for _, vn := range []string{"3.0", "3.1", "4.0"} {
-			for _, g := range pts {
-				wg.Add(1)
-				k++
-				go func(vn string, g gp, delay int) {
-					defer wg.Done()
-					atomic.AddInt32(&ready, 1)
-					for atomic.LoadInt32(&goFlag) == 0 {
-					}
-					for t := time.Now(); time.Since(t) < time.Duration(delay)*2*time.Microsecond; {
-					}
-					x := float64(g.N) / 100
+		var out []res
+		// one barrier per package (each has its own first use); every caller makes ONE call, all at once
+		for vi, vn := range []string{"3.0", "3.1", "4.0"} {
+			part := make([]res, n)
+			raceStart(n, func(i int) {
+				g := pts[(int(a.Seed)*7+vi*11+i*5)%len(pts)]
+				x := float64(g.N) / 100
+				r := "!panic"
+				safely(func() {
 					s, err := versions[vn].Rating(x)
-					r := s
+					r = s
 					if err != nil {
 						r = "!bounds"
 						if kk := versions[vn].ErrKind(err); kk.Kind != "bounds" || s != "" {
 							r = "!other"
 						}
 					}
-					mu.Lock()
-					out = append(out, res{vn, x, g.R, r})
-					mu.Unlock()
-				}(vn, g, k%24)
-			}
+				})
+				part[i] = res{vn, x, g.R, r}
+			})
+			out = append(out, part...)
 		}
-		for atomic.LoadInt32(&ready) < int32(k) {
-			runtime.Gosched()
-		}
-		atomic.StoreInt32(&goFlag, 1)
-		wg.Wait()
 		for _, r := range out {
 			col.distinct(r.ver+fmtF(r.x), true)
 			col.count("first-use Rating calls", 1)
@@ -213,28 +214,12 @@ func runColdStart(a *args) {
 	}
 	got := make([]float64, len(jobs))
 	pan := make([]string, len(jobs))
-	var wg sync.WaitGroup
-	var ready, goFlag int32
-	for i := range jobs {
-		wg.Add(1)
-		go func(i int) {
-			defer wg.Done()
-			atomic.AddInt32(&ready, 1)
-			for atomic.LoadInt32(&goFlag) == 0 {
-			}
-			for t := time.Now(); time.Since(t) < time.Duration(i%16)*4*time.Microsecond; {
-			}
-			p, msg := safely(func() { got[i] = jobs[i].obj.Score(jobs[i].method) })
-			if p {
-				pan[i] = msg
-			}
-		}(i)
-	}
-	for atomic.LoadInt32(&ready) < int32(len(jobs)) {
-		runtime.Gosched()
-	}
-	atomic.StoreInt32(&goFlag, 1)
-	wg.Wait()
+	raceStart(len(jobs), func(i int) {
+		p, msg := safely(func() { got[i] = jobs[i].obj.Score(jobs[i].method) })
+		if p {
+			pan[i] = msg
+		}
+	})
 	for i, j := range jobs {
 		col.distinct(j.ver+j.vec+j.method, true)
 		col.count("first-use scoring calls", 1)
